@@ -268,17 +268,18 @@ def spanToken : Text → Text × Text
   | [] => ([], [])
   | c :: cs => if tokenChar c then let r := spanToken cs; (c :: r.1, r.2) else ([], c :: cs)
 
-/-- body of a quoted string after the opening quote: a backslash makes the next character literal, an
-unescaped quote ends it.  Returns the value and what follows the closing quote. -/
-def unquote : Text → Option (Text × Text)
-  | [] => none
-  | c :: cs =>
+/-- body of a quoted string after the opening quote: a backslash makes the next character literal
+(`esc` = the previous character was such a backslash), an unescaped quote ends it.  Returns the value
+and what follows the closing quote. -/
+def unquoteAux : Bool → Text → Option (Text × Text)
+  | _, [] => none
+  | true, c :: cs => (unquoteAux false cs).map fun r => (c :: r.1, r.2)
+  | false, c :: cs =>
     if c = chQuote then some ([], cs)
-    else if c = chBackslash then
-      match cs with
-      | [] => none
-      | d :: ds => (unquote ds).map fun r => (d :: r.1, r.2)
-    else (unquote cs).map fun r => (c :: r.1, r.2)
+    else if c = chBackslash then unquoteAux true cs
+    else (unquoteAux false cs).map fun r => (c :: r.1, r.2)
+
+def unquote (s : Text) : Option (Text × Text) := unquoteAux false s
 
 /-- the parameter section `("; " name "=" quoted-string)*`; `fuel` = an upper bound of its length -/
 def parseParams : Nat → Text → Option (List (Text × Text))
